@@ -92,6 +92,67 @@ fn ref_z85(data: &[u8]) -> String {
     String::from_utf8(out).unwrap()
 }
 
+const NCLASS: u64 = 7;
+
+/// bytes whose Z85 text is made mostly of the extreme digits (value 0 = '0', value 84 = '#', which is also the
+/// tail marker), including across the boundary between the last full chunk and the tail chunk
+fn z85_digit_boundary(rng: &mut Rng, len: usize) -> Vec<u8> {
+    let mut out = Vec::with_capacity(len);
+    let digit = |rng: &mut Rng| -> u64 {
+        match rng.below(8) {
+            0 => 0,
+            1..=4 => 84,
+            _ => rng.below(85) as u64,
+        }
+    };
+    while out.len() + 4 <= len {
+        let mut v: u64 = 0;
+        for i in 0..5 {
+            let mut d = digit(rng);
+            if i == 0 && d > 81 {
+                d = rng.below(82) as u64; // keep the value below 2^32
+            }
+            v = v * 85 + d;
+        }
+        out.extend_from_slice(&(v as u32).to_be_bytes());
+    }
+    let n = len - out.len();
+    if n > 0 {
+        let lim: u64 = 1 << (8 * n);
+        let mut v: u64 = 0;
+        for _ in 0..n + 1 {
+            v = v * 85 + digit(rng);
+        }
+        if v >= lim {
+            v = match rng.below(3) {
+                0 => lim - 1,
+                1 => v % lim,
+                _ => 84 * 85 + 84,
+            } % lim;
+        }
+        out.extend_from_slice(&(v as u32).to_be_bytes()[4 - n..]);
+    }
+    out
+}
+
+/// bytes built from 5- or 6-bit groups that are all-zero, all-one or random, so that base32/base64 text has runs of
+/// the first and last alphabet characters
+fn bit_group_boundary(rng: &mut Rng, len: usize) -> Vec<u8> {
+    let g = if rng.flip() { 5 } else { 6 };
+    let mut bits: Vec<u8> = Vec::with_capacity(len * 8 + 8);
+    while bits.len() < len * 8 {
+        let k = rng.below(4);
+        for _ in 0..g {
+            bits.push(match k {
+                0 => 0,
+                1 | 2 => 1,
+                _ => (rng.next_u64() & 1) as u8,
+            });
+        }
+    }
+    (0..len).map(|i| bits[i * 8..i * 8 + 8].iter().fold(0u8, |a, b| (a << 1) | b)).collect()
+}
+
 struct Codec {
     enc: &'static str,
     dec: &'static str,
@@ -205,16 +266,18 @@ impl Monitor for C18 {
     fn run_case(&mut self, idx: u64, obs: &mut Obs) {
         let mut rng = Rng::for_case("C18", self.seed, idx);
         let len = (idx % 301) as usize;
-        let data: Vec<u8> = match (idx / 301) % 5 {
+        let data: Vec<u8> = match (idx / 301) % NCLASS {
             0 => rng.bytes(len),
             1 => vec![0u8; len],
             2 => vec![0xffu8; len],
             3 => (0..len).map(|i| (i as u8).wrapping_mul(7).wrapping_add(idx as u8)).collect(),
-            _ => (0..len).map(|_| 0x20 + rng.below(0x5f) as u8).collect(),
+            4 => (0..len).map(|_| 0x20 + rng.below(0x5f) as u8).collect(),
+            5 => z85_digit_boundary(&mut rng, len),
+            _ => bit_group_boundary(&mut rng, len),
         };
         obs.see("lengths_mod_20", &format!("{}", len % 20));
         obs.maxi("max_len", len as u64);
-        obs.shape(fnv1a(format!("{}-{}", len, (idx / 301) % 5).as_bytes()) ^ (idx / 1505));
+        obs.shape(fnv1a(format!("{}-{}", len, (idx / 301) % NCLASS).as_bytes()) ^ (idx / (301 * NCLASS)));
         let cs = codecs();
         for c in cs.iter() {
             let (input, form) = self.input_form(&data, &mut rng);
@@ -351,6 +414,6 @@ impl Monitor for C18 {
         }
     }
     fn describe(&mut self, idx: u64) -> String {
-        format!("encode/decode of a {}-byte string (content class {}), all four codecs", idx % 301, (idx / 301) % 5)
+        format!("encode/decode of a {}-byte string (content class {}), all four codecs", idx % 301, (idx / 301) % NCLASS)
     }
 }
